@@ -484,6 +484,7 @@ theorem C05_params_iff (s : Server) (hcustom : s.custom = Option.none) (m : Stri
           cases depth with
           | zero => exact ⟨cls, text, ae, rfl⟩
           | succ k => simp [hbody, handleCallExc, methodExceptionFault, codeInternal] at h
+      | raisedBase cls text depth => simp [hbody, handleCallExc, methodExceptionFault, codeInternal] at h
   · rintro (hb | ⟨cls, text, ae, hbody⟩)
     · exact ⟨msgParams, by rw [C05_params s hcustom m p c hf hb]⟩
     · cases hb : binds c.sig p with
